@@ -95,6 +95,7 @@ impl Rec {
         self.sets.entry(name.to_string()).or_default().insert(v);
     }
     pub fn event(&mut self, e: String) {
+        note_current(&e);
         if self.ring.len() >= RING {
             self.ring.pop_front();
         }
@@ -193,8 +194,46 @@ impl Rec {
     }
 }
 
+// ---- hang watchdog: a library call that does not return. Every worker owns a slot; `guarded` stamps the slot
+// with a coarse tick (advanced once per second by the watchdog thread) on entry and clears it on exit. A slot
+// that stays stamped for HANG_SECS means one call has been running that long: the run is ended with a
+// violation of the running property ("does not return"), carrying the last event the worker recorded.
+pub const HANG_SECS: u64 = 300;
+pub static TICK: std::sync::atomic::AtomicU64 = std::sync::atomic::AtomicU64::new(1);
+const NSLOTS: usize = 256;
+#[allow(clippy::declare_interior_mutable_const)]
+const SLOT0: std::sync::atomic::AtomicU64 = std::sync::atomic::AtomicU64::new(0);
+pub static SLOTS: [std::sync::atomic::AtomicU64; NSLOTS] = [SLOT0; NSLOTS];
+pub static LAST_EVENT: std::sync::Mutex<Vec<String>> = std::sync::Mutex::new(Vec::new());
+static NEXT_SLOT: std::sync::atomic::AtomicUsize = std::sync::atomic::AtomicUsize::new(0);
+thread_local! {
+    static MY_SLOT: usize = NEXT_SLOT.fetch_add(1, std::sync::atomic::Ordering::Relaxed) % NSLOTS;
+}
+pub fn my_slot() -> usize {
+    MY_SLOT.with(|s| *s)
+}
+/// remember what the calling worker is about to do (shown if the call never returns)
+pub fn note_current(e: &str) {
+    let slot = my_slot();
+    if let Ok(mut g) = LAST_EVENT.try_lock() {
+        if g.len() <= slot {
+            g.resize(slot + 1, String::new());
+        }
+        g[slot].clear();
+        g[slot].push_str(&e[..e.len().min(400)]);
+    }
+}
+
 /// Run `f` on the library side; a panic is reported as Err(message).
 pub fn guarded<T>(f: impl FnOnce() -> T) -> Result<T, String> {
+    use std::sync::atomic::Ordering::Relaxed;
+    let slot = my_slot();
+    let prev = SLOTS[slot].swap(TICK.load(Relaxed), Relaxed);
+    let r = guarded_inner(f);
+    SLOTS[slot].store(prev, Relaxed);
+    r
+}
+fn guarded_inner<T>(f: impl FnOnce() -> T) -> Result<T, String> {
     match catch_unwind(AssertUnwindSafe(f)) {
         Ok(v) => Ok(v),
         Err(e) => {
